@@ -3,6 +3,8 @@ import FrappyProofs.Lemmas.ModuleProps
 import FrappyProofs.Props.C04
 import FrappyProofs.Props.C03
 import FrappyModel.Node.DescribeDT
+import FrappyModel.Node.Retype
+import FrappyModel.Node.CreateModules
 import FrappyModel.Generated.C06
 /-
 C06 — property theorems (nothing but property theorems and their non-vacuity examples).
@@ -2067,6 +2069,469 @@ example : ∃ ad, findDesc (describe pre node4) "m" "_p" = some ad ∧
     subst hp
     exact ⟨ad, rfl, hall _ t4 rfl t4_wf (Or.inl t4_exportable)⟩
 
+end Example4
+
+/-! ### which modules are registered for the report: `create_modules` (round 7, seeded change C06-m11) -/
+
+section Create
+open Frappy.Node.Create
+
+/-- the invariant of `SecNode`: the list the report is made from is exactly the module objects with a set `export`
+flag, in their order of creation -/
+def Reg (s : St) : Prop := RegisteredOK s.created s.registered
+
+theorem addModule_reg (s : St) (name : String) (e : Bool) (h : Reg s) : Reg (addModule s name e) := by
+  unfold Reg RegisteredOK at *
+  cases e <;> simp [addModule, h, List.filter_append, List.map_append]
+
+theorem getInstance_reg (s : St) (name : String) (h : Reg s) : Reg (getInstance s name).1 := by
+  unfold getInstance
+  split
+  · exact h
+  · split
+    · exact h
+    · exact addModule_reg s name _ h
+
+theorem foldl_inv {α β : Type} (P : β → Prop) (g : β → α → β) (hg : ∀ b a, P b → P (g b a)) :
+    ∀ (l : List α) (b : β), P b → P (l.foldl g b)
+  | [], _, h => h
+  | a :: l, b, h => foldl_inv P g hg l (g b a) (hg b a h)
+
+theorem getModule_reg : ∀ (fuel : Nat) (s : St) (name : String), Reg s → Reg (getModule fuel s name)
+  | 0, s, name, h => h
+  | fuel + 1, s, name, h => by
+    have hi := getInstance_reg s name h
+    unfold getModule
+    generalize getInstance s name = r at hi
+    obtain ⟨s1, b⟩ := r
+    cases b with
+    | false => exact hi
+    | true =>
+      simp only
+      split
+      · exact hi
+      · split
+        · exact hi
+        · exact foldl_inv Reg _ (fun b a hb => getModule_reg fuel b a hb) _ _ hi
+
+theorem createLoop_reg (pool : List ModCfg) (depth : Nat) :
+    ∀ (fuel : Nat) (todos : List ModCfg) (s : St), Reg s → Reg (createLoop pool depth fuel todos s)
+  | 0, [], s, h => h
+  | 0, _ :: _, s, h => h
+  | _ + 1, [], s, h => h
+  | fuel + 1, c :: todos, s, h => by
+    unfold createLoop
+    split
+    · exact createLoop_reg pool depth fuel todos s h
+    · have h1 : Reg (getInstance { s with table := c :: s.table } c.name).1 := getInstance_reg _ _ h
+      split
+      · exact createLoop_reg pool depth fuel _ _ (getModule_reg depth _ _ h1)
+      · exact createLoop_reg pool depth fuel _ _ h1
+
+/-- **create_modules_registers.**  For EVERY configuration — whatever the order of declaration, whichever modules are
+attached to which, whatever the Pinatas yield, whatever goes wrong on the way — `create_modules` ends with the list the
+report is made from being exactly the module objects whose `export` flag is set, each once, in the order of their
+creation: a module that came into being before its own turn (as the attached module of a Pinata initialised inside the
+loop) is registered like any other.  (This is the statement the seeded change C06-m11 breaks.) -/
+theorem create_modules_registers (pool cfg : List ModCfg) (fuel depth : Nat) :
+    RegisteredOK (createModules pool cfg fuel depth).created (createModules pool cfg fuel depth).registered := by
+  unfold createModules
+  exact foldl_inv Reg _ (fun b a hb => getModule_reg depth b a hb) _ _
+    (createLoop_reg pool depth fuel cfg _ (by simp [Reg, RegisteredOK]))
+
+theorem exported_names_eq (n : Node J V) :
+    (n.filter (fun m => m.exported)).map (·.name) =
+      ((n.map (fun m => (m.name, m.exported))).filter (·.2)).map (·.1) := by
+  induction n with
+  | nil => rfl
+  | cons m rest ih =>
+    cases hm : m.exported <;> simp [List.filter_cons, hm, ih]
+
+/-- no module object is made twice: the names of the created modules are distinct -/
+def NamesNodup (s : St) : Prop := (s.created.map (·.1)).Nodup
+
+theorem getInstance_nodup (s : St) (name : String) (h : NamesNodup s) : NamesNodup (getInstance s name).1 := by
+  unfold getInstance
+  split
+  · exact h
+  · rename_i hc
+    split
+    · exact h
+    · unfold NamesNodup addModule at *
+      simp only [List.map_append, List.map_cons, List.map_nil]
+      refine List.nodup_append.mpr ⟨h, by simp, ?_⟩
+      intro a ha b hb
+      simp only [List.mem_singleton] at hb
+      subst hb
+      intro hab
+      subst hab
+      apply hc
+      simp only [isCreated, List.any_eq_true]
+      obtain ⟨x, hx, hxa⟩ := List.mem_map.mp ha
+      exact ⟨x, hx, by simp [hxa]⟩
+
+theorem getModule_nodup : ∀ (fuel : Nat) (s : St) (name : String), NamesNodup s → NamesNodup (getModule fuel s name)
+  | 0, s, name, h => h
+  | fuel + 1, s, name, h => by
+    have hi := getInstance_nodup s name h
+    unfold getModule
+    generalize getInstance s name = r at hi
+    obtain ⟨s1, b⟩ := r
+    cases b with
+    | false => exact hi
+    | true =>
+      simp only
+      split
+      · exact hi
+      · split
+        · exact hi
+        · exact foldl_inv NamesNodup _ (fun b a hb => getModule_nodup fuel b a hb) _ _ hi
+
+theorem createLoop_nodup (pool : List ModCfg) (depth : Nat) :
+    ∀ (fuel : Nat) (todos : List ModCfg) (s : St), NamesNodup s → NamesNodup (createLoop pool depth fuel todos s)
+  | 0, [], s, h => h
+  | 0, _ :: _, s, h => h
+  | _ + 1, [], s, h => h
+  | fuel + 1, c :: todos, s, h => by
+    unfold createLoop
+    split
+    · exact createLoop_nodup pool depth fuel todos s h
+    · have h1 : NamesNodup (getInstance { s with table := c :: s.table } c.name).1 := getInstance_nodup _ _ h
+      split
+      · exact createLoop_nodup pool depth fuel _ _ (getModule_nodup depth _ _ h1)
+      · exact createLoop_nodup pool depth fuel _ _ h1
+
+/-- **create_modules_once**: every module object is made once (hence registered at most once) -/
+theorem create_modules_once (pool cfg : List ModCfg) (fuel depth : Nat) :
+    ((createModules pool cfg fuel depth).created.map (·.1)).Nodup ∧ (createModules pool cfg fuel depth).registered.Nodup := by
+  have h : NamesNodup (createModules pool cfg fuel depth) := by
+    unfold createModules
+    exact foldl_inv NamesNodup _ (fun b a hb => getModule_nodup depth b a hb) _ _
+      (createLoop_nodup pool depth fuel cfg _ (by simp [NamesNodup]))
+  refine ⟨h, ?_⟩
+  rw [create_modules_registers pool cfg fuel depth]
+  unfold NamesNodup at h
+  exact (List.Nodup.sublist (List.Sublist.map _ List.filter_sublist) h)
+
+/-! every module of the configuration comes into being -/
+
+/-- nothing is un-made and no error is forgotten -/
+def Sub (s s' : St) : Prop := (∀ x, isCreated s x = true → isCreated s' x = true) ∧ s.errors ≤ s'.errors
+
+theorem Sub.rfl' (s : St) : Sub s s := ⟨fun _ h => h, Nat.le_refl _⟩
+theorem Sub.trans' {a b c : St} (h1 : Sub a b) (h2 : Sub b c) : Sub a c :=
+  ⟨fun x h => h2.1 x (h1.1 x h), Nat.le_trans h1.2 h2.2⟩
+
+theorem isCreated_addModule (s : St) (name : String) (e : Bool) (x : String) :
+    isCreated (addModule s name e) x = (isCreated s x || name == x) := by
+  simp [isCreated, addModule, List.any_append]
+
+theorem getInstance_sub (s : St) (name : String) : Sub s (getInstance s name).1 := by
+  unfold getInstance
+  split
+  · exact Sub.rfl' s
+  · split
+    · exact ⟨fun _ h => h, Nat.le_succ _⟩
+    · refine ⟨fun x h => ?_, Nat.le_refl _⟩
+      rw [isCreated_addModule, h]; rfl
+
+theorem foldl_sub {α : Type} (g : St → α → St) (hg : ∀ b a, Sub b (g b a)) :
+    ∀ (l : List α) (b : St), Sub b (l.foldl g b)
+  | [], b => Sub.rfl' b
+  | a :: l, b => Sub.trans' (hg b a) (foldl_sub g hg l (g b a))
+
+theorem getModule_sub : ∀ (fuel : Nat) (s : St) (name : String), Sub s (getModule fuel s name)
+  | 0, s, name => ⟨fun _ h => h, Nat.le_succ _⟩
+  | fuel + 1, s, name => by
+    have hi := getInstance_sub s name
+    unfold getModule
+    generalize getInstance s name = r at hi
+    obtain ⟨s1, b⟩ := r
+    cases b with
+    | false => exact hi
+    | true =>
+      simp only
+      split
+      · exact hi
+      · split
+        · exact Sub.trans' hi ⟨fun _ h => h, Nat.le_succ _⟩
+        · refine Sub.trans' hi ?_
+          have h2 := foldl_sub (fun s a => getModule fuel s a) (fun b a => getModule_sub fuel b a)
+            (match lookup s1 name with
+              | some c => c.attached
+              | none => []) { s1 with initializing := name :: s1.initializing }
+          exact ⟨fun x h => h2.1 x h, h2.2⟩
+
+theorem createLoop_sub (pool : List ModCfg) (depth : Nat) :
+    ∀ (fuel : Nat) (todos : List ModCfg) (s : St), Sub s (createLoop pool depth fuel todos s)
+  | 0, [], s => Sub.rfl' s
+  | 0, _ :: _, s => ⟨fun _ h => h, Nat.le_succ _⟩
+  | _ + 1, [], s => Sub.rfl' s
+  | fuel + 1, c :: todos, s => by
+    unfold createLoop
+    split
+    · exact createLoop_sub pool depth fuel todos s
+    · have h1 : Sub s (getInstance { s with table := c :: s.table } c.name).1 :=
+        let h := getInstance_sub { s with table := c :: s.table } c.name
+        ⟨fun x hx => h.1 x hx, h.2⟩
+      split
+      · exact Sub.trans' h1 (Sub.trans' (getModule_sub depth _ _) (createLoop_sub pool depth fuel _ _))
+      · exact Sub.trans' h1 (createLoop_sub pool depth fuel _ _)
+
+/-- the entry just written into `srv.module_cfg` is the one the module is made from -/
+theorem getInstance_creates (s : St) (c : ModCfg) :
+    isCreated (getInstance { s with table := c :: s.table } c.name).1 c.name = true := by
+  unfold getInstance
+  split
+  · assumption
+  · have hl : lookup { s with table := c :: s.table } c.name = some c := by simp [lookup, List.find?_cons]
+    rw [hl]
+    simp only
+    rw [isCreated_addModule]; simp
+
+theorem createLoop_creates (pool : List ModCfg) (depth : Nat) :
+    ∀ (fuel : Nat) (todos : List ModCfg) (s : St), (createLoop pool depth fuel todos s).errors = 0 →
+      ∀ c ∈ todos, isCreated (createLoop pool depth fuel todos s) c.name = true
+  | 0, [], s, _, c, hc => by cases hc
+  | 0, _ :: _, s, h, c, hc => by simp [createLoop] at h
+  | _ + 1, [], s, _, c, hc => by cases hc
+  | fuel + 1, c0 :: todos, s, h, c, hc => by
+    unfold createLoop at h ⊢
+    split at h
+    · rename_i hcr
+      rw [if_pos hcr]
+      rcases List.mem_cons.mp hc with rfl | hc'
+      · exact (createLoop_sub pool depth fuel todos s).1 _ hcr
+      · exact createLoop_creates pool depth fuel todos s h c hc'
+    · rename_i hcr
+      rw [if_neg hcr]
+      have hmade := getInstance_creates s c0
+      split at h
+      · rename_i hp
+        simp only [hp, if_true]
+        rcases List.mem_cons.mp hc with rfl | hc'
+        · exact (createLoop_sub pool depth fuel _ _).1 _ ((getModule_sub depth _ _).1 _ hmade)
+        · exact createLoop_creates pool depth fuel _ _ h c (List.mem_append_left _ hc')
+      · rename_i hp
+        simp only [hp]
+        rcases List.mem_cons.mp hc with rfl | hc'
+        · exact (createLoop_sub pool depth fuel _ _).1 _ hmade
+        · exact createLoop_creates pool depth fuel _ _ h c hc'
+
+/-- **create_modules_creates**: when `create_modules` meets no error (no unknown attached module, no cyclic dependency;
+for the model: enough fuel), every module of the configuration exists afterwards — in its own turn or before it -/
+theorem create_modules_creates (pool cfg : List ModCfg) (fuel depth : Nat)
+    (h : (createModules pool cfg fuel depth).errors = 0) :
+    ∀ c ∈ cfg, isCreated (createModules pool cfg fuel depth) c.name = true := by
+  intro c hc
+  have key : createModules pool cfg fuel depth =
+      ((createLoop pool depth fuel cfg { table := cfg }).created.map (·.1)).foldl (fun s a => getModule depth s a)
+        (createLoop pool depth fuel cfg { table := cfg }) := rfl
+  have hs := foldl_sub (fun s a => getModule depth s a) (fun b a => getModule_sub depth b a)
+    ((createLoop pool depth fuel cfg { table := cfg }).created.map (·.1)) (createLoop pool depth fuel cfg { table := cfg })
+  rw [← key] at hs
+  have h0 : (createLoop pool depth fuel cfg { table := cfg }).errors = 0 := Nat.le_zero.mp (h ▸ hs.2)
+  exact hs.1 _ (createLoop_creates pool depth fuel cfg _ h0 c hc)
+
+/-- what the monitor `allRegisteredB` demands of the implementation follows from `RegisteredOK` -/
+theorem allRegistered_of_registeredOK (created : List (String × Bool)) (registered : List String)
+    (h : RegisteredOK created registered) : allRegisteredB created registered = true := by
+  unfold allRegisteredB unregistered
+  unfold RegisteredOK at h
+  rw [← h]
+  simp [List.filter_eq_nil_iff]
+
+/-- the report follows the registration: for a node whose modules are the created module objects (name and `export` flag,
+in the order of creation), the modules of the report are the registered ones, in that order -/
+theorem describe_follows_registration (pre : Predef) (n : Node J V) (created : List (String × Bool))
+    (registered : List String) (hn : n.map (fun m => (m.name, m.exported)) = created)
+    (hr : RegisteredOK created registered) :
+    (describe pre n).map (·.name) = registered := by
+  unfold RegisteredOK at hr
+  rw [hr, ← hn, ← exported_names_eq]
+  unfold describe
+  rw [List.map_map]
+  rfl
+
+/-- both together: the modules of the report of a node made by `create_modules` are the registered ones, and these are
+the module objects with `export = True` -/
+theorem report_lists_created_exported (pre : Predef) (pool cfg : List ModCfg) (fuel depth : Nat) (n : Node J V)
+    (hn : n.map (fun m => (m.name, m.exported)) = (createModules pool cfg fuel depth).created) :
+    (describe pre n).map (·.name) = (((createModules pool cfg fuel depth).created).filter (·.2)).map (·.1) := by
+  rw [describe_follows_registration pre n _ _ hn (create_modules_registers pool cfg fuel depth)]
+  exact create_modules_registers pool cfg fuel depth
+
+namespace Example5
+/-- the configuration of the seeded demonstration: an ordinary module, a Pinata `hub` that needs `bus` — declared BEHIND
+it —, a hidden module; the Pinata yields `ch1` (exported) and `ch2` (hidden) -/
+def cfg5 : List ModCfg :=
+  [{ name := "first", exported := true }, { name := "hub", exported := false, pinata := true, attached := ["bus"], scan := ["ch1", "ch2"] },
+   { name := "bus", exported := true }, { name := "hidden", exported := false }]
+def pool5 : List ModCfg := [{ name := "ch1", exported := true }, { name := "ch2", exported := false }]
+
+/-- `bus` is created while `hub` is initialised, in front of its own turn — and registered -/
+example : (createModules pool5 cfg5 7 7).created =
+      [("first", true), ("hub", false), ("bus", true), ("hidden", false), ("ch1", true), ("ch2", false)] ∧
+    (createModules pool5 cfg5 7 7).registered = ["first", "bus", "ch1"] ∧
+    (createModules pool5 cfg5 7 7).errors = 0 := by decide +kernel
+
+example : RegisteredOK (createModules pool5 cfg5 7 7).created (createModules pool5 cfg5 7 7).registered :=
+  create_modules_registers pool5 cfg5 7 7
+
+/-- the hypothesis of `create_modules_creates` holds here: no error, so `bus` (and every other configured module) exists -/
+example : isCreated (createModules pool5 cfg5 7 7) "bus" = true :=
+  create_modules_creates pool5 cfg5 7 7 (by decide +kernel) ⟨"bus", true, false, [], []⟩ (by decide +kernel)
+
+/-- the monitor refuses the registry of the seeded change (`bus` created, exported, not registered) -/
+example : registeredB [("first", true), ("hub", false), ("bus", true), ("hidden", false), ("ch1", true), ("ch2", false)]
+    ["first", "ch1"] = false ∧
+    unregistered [("first", true), ("hub", false), ("bus", true), ("hidden", false), ("ch1", true), ("ch2", false)]
+    ["first", "ch1"] = ["bus"] := by decide +kernel
+end Example5
+
+end Create
+
+/-! ### module code changes the datatype of a live parameter (round 7, seeded change C06-m12) -/
+
+section Retype
+
+theorem exportName_setDt (pre : Predef) (attr : String) (dt : DtOps J V) (a : Acc J V) :
+    exportName pre (Acc.setDt attr dt a) = exportName pre a := by
+  cases a with
+  | command c => rfl
+  | param p =>
+    simp only [Acc.setDt]
+    split <;> rfl
+
+@[simp] theorem wireName_setDt (pre : Predef) (m : Module J V) (attr : String) (dt : DtOps J V) (a : Acc J V) :
+    wireName pre (m.setDt attr dt) (Acc.setDt attr dt a) = wireName pre m a := by
+  unfold wireName
+  rw [exportName_setDt]
+  rfl
+
+/-- **retype_other_stable** — "stable between calls" for everything that did not change: the entry of an accessible
+other than the retyped parameter is the same before and after -/
+theorem retype_other_stable (pre : Predef) (m : Module J V) (attr : String) (dt : DtOps J V) (a : Acc J V)
+    (h : a.attr ≠ attr) :
+    describeAcc pre (m.setDt attr dt) (Acc.setDt attr dt a) = describeAcc pre m a := by
+  unfold describeAcc
+  rw [wireName_setDt]
+  cases a with
+  | command c => rfl
+  | param p =>
+    have hb : (p.attr == attr) = false := by simpa [Acc.attr] using h
+    simp only [Acc.setDt, hb]
+    rfl
+
+/-- **retype_reported** — the report is true AT THE TIME it is asked for: after module code gave parameter `attr` the
+datatype `dt`, its entry states `dt`'s datainfo (and serialises a constant with `dt`); wire name, kind, `readonly` and
+the property list are what they were -/
+theorem retype_reported (pre : Predef) (m : Module J V) (dt : DtOps J V) (p : Param J V) (w : String)
+    (hw : wireName pre m (.param p) = some w) :
+    describeAcc pre (m.setDt p.attr dt) (Acc.setDt p.attr dt (.param p)) =
+      some ⟨w, .parameter, dt.datainfo, some p.readonly, p.constant.map dt.exportV, p.props, none⟩ := by
+  unfold describeAcc
+  rw [wireName_setDt, hw]
+  simp [Acc.setDt]
+
+/-- ... and the dispatcher validates with that same `dt` from then on: the one `Param` value serves both -/
+theorem retype_dispatched (attr : String) (dt : DtOps J V) (p : Param J V) (h : p.attr = attr) :
+    Acc.setDt attr dt (.param p) = .param { p with dt := dt } := by
+  simp [Acc.setDt, h]
+
+theorem updDt_name (mod attr : String) (dt : DtOps J V) (m : Module J V) : (updDt mod attr dt m).name = m.name := by
+  unfold updDt; split <;> rfl
+
+theorem updDt_exported (mod attr : String) (dt : DtOps J V) (m : Module J V) :
+    (updDt mod attr dt m).exported = m.exported := by
+  unfold updDt; split <;> rfl
+
+/-- a module other than the one whose parameter was retyped is described as before -/
+theorem retype_other_module (pre : Predef) (mod attr : String) (dt : DtOps J V) (m : Module J V) (h : m.name ≠ mod) :
+    describeModule pre (updDt mod attr dt m) = describeModule pre m := by
+  have hb : (m.name == mod) = false := by simpa using h
+  simp [updDt, hb]
+
+/-- **retype_same_modules**: a live datatype change never changes WHICH modules the report lists, nor their properties -/
+theorem retype_same_modules (pre : Predef) (n : Node J V) (mod attr : String) (dt : DtOps J V) :
+    (describe pre (setDt n mod attr dt)).map (·.name) = (describe pre n).map (·.name) ∧
+    (describe pre (setDt n mod attr dt)).map (·.props) = (describe pre n).map (·.props) := by
+  unfold describe setDt
+  have h1 : ((fun m : Module J V => m.exported) ∘ updDt mod attr dt) = (fun m : Module J V => m.exported) := by
+    funext m; exact updDt_exported mod attr dt m
+  rw [List.filter_map, h1]
+  simp only [List.map_map]
+  refine ⟨?_, ?_⟩
+  · apply List.map_congr_left; intro m _; simp only [Function.comp]; unfold updDt; split <;> rfl
+  · apply List.map_congr_left; intro m _; simp only [Function.comp]; unfold updDt; split <;> rfl
+
+/-- the monitor `stableExceptB` accepts only pairs of reports that satisfy `StableExcept` -/
+theorem stableExceptB_sound [DecidableEq J] (touched : List (String × String)) (d1 d2 : List (ModDesc J))
+    (h : stableExceptB touched d1 d2 = true) : StableExcept touched d1 d2 := by
+  unfold stableExceptB at h
+  simp only [Bool.and_eq_true, decide_eq_true_eq, List.all_eq_true] at h
+  obtain ⟨⟨h1, h2⟩, h3⟩ := h
+  refine ⟨h1, h2, fun xy hxy => ?_⟩
+  obtain ⟨h4, h5⟩ := h3 xy hxy
+  refine ⟨h4, fun ab hab => ?_⟩
+  have h6 := h5 ab hab
+  split at h6 <;> rename_i ht
+  · rw [if_pos ht]; simpa using h6
+  · rw [if_neg ht]; simpa using h6
+
+/-- with nothing touched, `StableExcept` is plain stability of every entry -/
+example : stableExceptB (J := Nat) [] [⟨"m", [⟨"a", .parameter, 0, some true, none, [], none⟩], []⟩]
+    [⟨"m", [⟨"a", .parameter, 1, some true, none, [], none⟩], []⟩] = false ∧
+    stableExceptB (J := Nat) [("m", "a")] [⟨"m", [⟨"a", .parameter, 0, some true, none, [], none⟩], []⟩]
+    [⟨"m", [⟨"a", .parameter, 1, some true, none, [], none⟩], []⟩] = true := by decide +kernel
+
+open Frappy.Props.C04.Example in
+/-- non-vacuity: in the example node the parameter `target` (wire name `target`) gets a new datatype (datainfo 7 instead
+of 0): the report states 7 for it; the entry of `ro` is untouched -/
+example : ∃ dt' : DtOps Nat Nat, dt'.datainfo = 7 ∧
+    (findDesc (describe pre (setDt node "m" "target" dt')) "m" "target").map (·.datainfo) = some 7 ∧
+    (findDesc (describe pre node) "m" "target").map (·.datainfo) = some 0 ∧
+    findDesc (describe pre (setDt node "m" "target" dt')) "m" "_ro" = findDesc (describe pre node) "m" "_ro" :=
+  ⟨{ dt with datainfo := 7 }, rfl, by decide +kernel, by decide +kernel, by decide +kernel⟩
+
+open Frappy.Props.C04.Example in
+example : wireName pre m (.param target) = some "target" := by decide +kernel
+
+end Retype
+
+section LiveLimits
+open Frappy Frappy.Datatypes FloatOps Frappy.Lemmas.C03Datainfo
+variable {F : Type} [FloatOps F] [LawfulFloatOps F] [CompatLaws F]
+
+/-- **live_scaled_described** — `configured_scaled_described` for a limit set at RUN TIME: `datatype.set_properties(max=x)`
+on the live datatype object of a scaled parameter (x finite, on the grid, not below `min`) succeeds, the datatype stays
+well formed, the report made afterwards states the grid index of `x`, and the client rebuilt from THAT report treats every
+payload as the node does from then on -/
+theorem live_scaled_described (D : Consts F) (hD : D.OK) (s mn mx ar rr x : F) (u f : String)
+    (hwf : (DInfo.scaled s mn mx ar rr u f).WF D) (hx : isFinite x = true) (hc : addZero x = x)
+    (hle : le mn x = true) (hmn : DInfo.Aligned s mn) (hax : DInfo.Aligned s x) :
+    ∃ t', liveSetLimits D [(.max, .float x)] (.scaled s mn mx ar rr u f) = .ok t' ∧ t'.WF D ∧
+      ∃ kmax fields, exportDatatype D t' = .ok (.obj fields) ∧ PVal.dictGet fields "max" = some (.int kmax) ∧
+        DType.ofGrid s kmax = some x ∧
+        ∀ j prev, clientAccept D (.obj fields) j prev = acceptWire t'.erase j prev := by
+  obtain ⟨t', h1, h2, h3, h4⟩ := configured_scaled_described D hD s mn mx ar rr x u f hwf hx hc hle hmn hax
+  refine ⟨t', ?_, h3, h4⟩
+  simp only [liveSetLimits, applyLimits, h1, h2, if_true]
+
+end LiveLimits
+
+namespace Example4
+open Frappy Frappy.Datatypes FloatOps
+/-- non-vacuity of `live_scaled_described`: the live `ScaledInteger(0.1, 0, 1)` gets `max = 0.3` at run time -/
+example : liveSetLimits D4 [(.max, .float (3/10))] cls4 = .ok t4 := by
+  have ho : limitsOrdered t4 = true := by decide +kernel
+  simp only [liveSetLimits, applyLimits, stored4, ho, if_true]
+
+example : ∃ t', liveSetLimits D4 [(.max, .float (3/10))] cls4 = .ok t' ∧ t'.WF D4 :=
+  let ⟨t', h1, h2, _⟩ := live_scaled_described D4 D4_ok (1/10) 0 1 (1/10) (12/100000000) (3/10) "" "%g" cls4_wf
+      (by decide +kernel) (by decide +kernel) (by decide +kernel) (by unfold DInfo.Aligned; decide +kernel)
+      (by unfold DInfo.Aligned; decide +kernel)
+  ⟨t', h1, h2⟩
 end Example4
 
 end Frappy.Props.C06
